@@ -549,3 +549,10 @@ package bchutil
 //@   ensures len(pkHash) == 20 ==> err == nil && result0 != nil && fresh(result0) && sameobj(result0.prefix, net.CashAddressPrefix) && result0.prefix.off == net.CashAddressPrefix.off && len(result0.prefix) == len(net.CashAddressPrefix)
 //@   ensures len(pkHash) == 20 ==> forall k :: 0 <= k && k < 20 ==> result0.hash[k] == pkHash[k]
 //@   modifies nothing
+
+//@ func bchutil.asciiToLower
+//@   ensures len(result) == len(s) && forall k :: 0 <= k && k < len(s) ==> result[k] == (('A' <= s[k] && s[k] <= 'Z') ? s[k] + 32 : s[k])
+//@   modifies nothing
+//@   loop 1 invariant len(b) == len(s) && fresh(b)
+//@   loop 1 invariant forall k :: 0 <= k && k < $i ==> b[k] == (('A' <= s[k] && s[k] <= 'Z') ? s[k] + 32 : s[k])
+//@   loop 1 invariant forall k :: $i <= k && k < len(s) ==> b[k] == s[k]
